@@ -194,11 +194,5 @@ Definition line_simple (l : line) : bool :=
   end.
 
 
-(** directives first, then statement groups *)
-Fixpoint groups_only (d : doc) : bool :=
-  match d with [] => true | IGrp _ :: d' => groups_only d' | IDir _ :: _ => false end.
-Fixpoint prologue_form (d : doc) : bool :=
-  match d with [] => true | IDir _ :: d' => prologue_form d' | IGrp _ :: d' => groups_only d' end.
-
 Definition C07_partial_dom (ls : list line) (d : doc) : bool :=
-  C07_dom ls d && forallb line_simple ls && prologue_form d.
+  C07_dom ls d && forallb line_simple ls.
